@@ -8,7 +8,7 @@ build degenerates to C03 (thorough tier of C03).  Which functions are documented
 every zeroing write into a caller buffer in the library."""
 import json, os, re
 from ..ir import Program
-from .. import frontend, api, par, capcheck
+from .. import frontend, api, par, capcheck, budget
 from . import capcommon
 from . import dest_common as dc
 
@@ -180,8 +180,9 @@ def run(ck):
     if nstart < 80:
         ck.fail_broken("start clause decided for only %d slack-clearing writes (< 80 confirmed on the pinned tree)" % nstart)
     nmust, mper = must_clear(ck, prog)
+    bud = budget.rule(prog, ck.report, "C08", broken=ck.fail_broken)
     fx = selftest(ck)
-    cov = dict(must_clear=dict(success_classes=nmust, functions=mper), explanation="%d zeroing writes into caller buffers (memsets and zero-only loops) in %d functions: for %d the equality 'start offset + length == declared size' is entailed "
+    cov = dict(cursor_and_count_loops={k: bud[k] for k in ("loops", "iteration_paths")}, must_clear=dict(success_classes=nmust, functions=mper), explanation="%d zeroing writes into caller buffers (memsets and zero-only loops) in %d functions: for %d the equality 'start offset + length == declared size' is entailed "
                "from the loop invariants in both directions; %d lie in functions outside the reach of the domain (not claimed). Start clause: for %d of them it is decided that the clearing "
                "starts at the buffer start or not behind the end of something the function itself wrote (a store, or the element count returned by a converter/formatter); "
                "a start a constant distance behind every such write is reported, the rest (start computed from a value reloaded from memory) is not decided." % (n, len(fns), ok, nreach, nstart),
@@ -205,4 +206,10 @@ def selftest(ck):
         out[n] = dict(fills=sum(1 for x in res if x.get("zero_fill")), not_ending_at_dmax=bad)
         if (bad > 0) != bool(w) or out[n]["fills"] == 0:
             ck.fail_broken("fixture c08.c:%s: %d of %d fills do not end at dmax, expected %s" % (n, bad, out[n]["fills"], "some" if w else "none"))
+    p1 = Program(frontend.load_sources([os.path.join(fdir, "c01.c")]))
+    got = []
+    r = budget.rule(p1, lambda key, *a, **k: got.append(key), "C08", funcs=[p1.funcs[n] for n in ("fxb_good", "fxb_no_room", "fxb_double_dec")], floor=0)
+    out["budget_rule"] = dict(reports=got, loops=r["loops"])
+    if got != ["C08:count-ahead-of-cursor:fxb_double_dec:while.cond"] or r["loops"] != 3:
+        ck.fail_broken("fixture c01.c: budget rule (C08 direction) reported %s over %d loops" % (got, r["loops"]))
     return out
